@@ -444,6 +444,7 @@ func init() {
 
 func runC14(c *Cfg) {
 	runSpecial(c, "C14", "keys-append-isolation")
+	runSpecial(c, "C14", "large-and-odd-key-populations")
 	r := c.Rep
 	var stuckSeen atomic.Bool
 	n := c.Pick(8000, 500000)
